@@ -9,6 +9,8 @@ open Proto Weights
       row   <sizes> <W> <Y row>                          -> a_jk row computed group slice by group slice
       wsob  <opa> <ns> <zb> <N> <nSel> <ak> <s values> <src idx> <evt idx> <b per selected event> <r2 values | ->
             -> none | <log Λ> <sum |terms|>      SourceWeighted(SigOverBkg [x ratio]) on the flat values array
+      hist  <opa> <K> <W0> <J> {<N_j> <E_j> <R_j flat>} {A <Y flat> | F | E <ns> | W <weights> | C}
+            -> the values of the E steps: the state machine `lowRun` (cached W, a_jk, f_j) on low-level operations
       multi <opa> <ns> <K> <W> <Y flat> <J> {<N_j> <E_j> <R_j flat (K x E_j)>}   -> <log Λ> <f list> <sum |terms|>
 -/
 def chunk {α} (n : Nat) (xs : List α) : List (List α) :=
@@ -43,6 +45,16 @@ def sumAbs (opa ns : Float) (W : List Float) (Y : List (List Float)) (ds : List 
     let Xs := (ratioWeighted p.2.1 d.Rk d.nSel).map (LLH.xOfRatio d.N)
     (Xs.map (fun X => (LLH.logLambdaI opa nsj X).abs)).foldl (· + ·) 0
       + (LLH.pureBkgTerm d.N Xs.length nsj).abs)).foldl (· + ·) 0
+
+def parseOps (K : Nat) : List String → List (LowOp (List (List Float)) Float)
+  | "A" :: y :: rest =>
+      let Yf := pList pF y
+      .calcA (rowsOf K (Yf.length / K) Yf) :: parseOps K rest
+  | "F" :: rest => .calcF :: parseOps K rest
+  | "E" :: ns :: rest => .evalBody (pF ns) :: parseOps K rest
+  | "W" :: w :: rest => .setWeights (pList pF w) :: parseOps K rest
+  | "C" :: rest => .changeShgMgr :: parseOps K rest
+  | _ => []
 
 def answer (line : String) : String :=
   match tokens line with
@@ -85,6 +97,14 @@ def answer (line : String) : String :=
           let sa := (Xs.map (fun X => (LLH.logLambdaI (pF opa) (pF ns) X).abs)).foldl (· + ·) 0
             + (LLH.pureBkgTerm N Xs.length (pF ns)).abs
           s!"{fF (LLH.llrOfRatios (pF opa) N (pF ns) Ri)} {fF sa}"
+  | "hist" :: opa :: k :: w0 :: j :: rest =>
+      let K := pN k
+      let J := pN j
+      let ds := parseDatasets K (rest.take (3 * J))
+      let ops := parseOps K (rest.drop (3 * J))
+      let W0 := pList pF w0
+      let st : SvcState Float := { W := W0, Wc := W0, a := [], f := [] }
+      fListD fF (lowRun (pF opa) (fun Y => Y) ds st ops)
   | "multi" :: opa :: ns :: k :: w :: y :: _j :: rest =>
       let K := pN k
       let W := pList pF w
